@@ -24,9 +24,9 @@ import (
 	"sync"
 	"time"
 
+	"github.com/DemoHn/Zn/pkg/common"
 	"github.com/DemoHn/Zn/pkg/exec"
 	r "github.com/DemoHn/Zn/pkg/runtime"
-	"github.com/DemoHn/Zn/pkg/common"
 	"github.com/DemoHn/Zn/pkg/server"
 	"github.com/DemoHn/Zn/pkg/value"
 
